@@ -2086,3 +2086,159 @@ def role4_counters(P, R, L, rule="ROLE-4"):
             for fld in ("wal_file_number", "prev_wal_file_number", "curr_file_number", "prev_sequence_number"):
                 st = field_stores(b, fld, adt=VCM)
                 R.check(rule, "manifest-codec|reads.%s" % fld, bool(st), where(b), "the deserialiser fills %s" % fld, "stores %d" % len(st))
+
+
+# ------------------------------------------------------------------------------------------- PAIR-8 reversal repositions the inner iterator
+def pair8_reversal(P, R, L, rule="PAIR-8"):
+    """On a change of direction the underlying iterator is moved before the search for the next visible entry starts
+    (DatabaseIterator), and the merging iterator steps its current child before choosing the new smallest/largest."""
+    DBI = "iterator::DatabaseIterator"
+    MI = "versioning::file_iterators::MergingIterator"
+    for meth, helper, opposite, inner_moves in (
+            ("next", DBI + "::find_next_client_entry", "Backward", ("seek_to_first", "next", "seek")),
+            ("prev", DBI + "::find_prev_client_entry", "Forward", ("seek_to_last", "prev", "seek"))):
+        b = P.body("<%s as %s>::%s" % (DBI, ITER_TRAIT, meth))
+        if b is None:
+            R.missing_anchor(rule, DBI + "::" + meth)
+            continue
+        R.analysed(b)
+        hs = static_sites_reaching(P, b, helper)
+        # edges on which the stored direction is the opposite one
+        e = variant_edges(P, b, "iterator::DbIterationDirection", opposite, origin_pred_field("direction"))
+        moves = [c for c in b.calls() if not b.is_cleanup(c.bb) and (c.name or "").startswith(MI) or
+                 ((c.name or "").startswith("<" + MI + " as " + ITER_TRAIT) )]
+        moves = [c for c in b.calls() if not b.is_cleanup(c.bb) and any((c.name or "").endswith("::" + m) for m in inner_moves)
+                 and MI in (c.name or "")]
+        ok = bool(hs) and bool(e) and bool(moves)
+        det = "helper sites %d, direction edges %d, inner moves %d" % (len(hs), len(e), len(moves))
+        if ok:
+            for h in hs:
+                for (sb, tg) in e:
+                    if not b.must_pass(h.bb, through_nodes=[m.bb for m in moves], start=tg):
+                        ok = False
+                        det = "from the `direction == %s` edge %s is reachable without moving the inner iterator" % (opposite, helper.rsplit("::", 1)[1])
+        R.check(rule, "%s|reposition-on-reversal" % b.path, ok, where(b),
+                "when the iterator was travelling %s, %s() moves the inner iterator before searching for the next visible entry" % (opposite.lower(), meth), det)
+        # the direction field is updated on that edge
+        st = [s for s in field_stores(b, "direction")]
+        R.check(rule, "%s|direction-updated" % b.path, bool(st), where(b), "the reversal updates the stored direction", "stores %d" % len(st))
+    for meth, step, chooser in (("next", MI + "::advance_current_iterator", MI + "::find_smallest"),
+                                ("prev", MI + "::reverse_current_iterator", MI + "::find_largest")):
+        b = P.body("<%s as %s>::%s" % (MI, ITER_TRAIT, meth))
+        if b is None:
+            R.missing_anchor(rule, MI + "::" + meth)
+            continue
+        R.analysed(b)
+        ss = static_sites_reaching(P, b, step)
+        cs_ = static_sites_reaching(P, b, chooser)
+        ok = bool(ss) and bool(cs_) and all(b.must_pass(c.bb, through_nodes=[s.bb for s in ss]) for c in cs_)
+        # on the reversal edge every non-current child is re-seeked (a dyn seek inside a loop) before the step
+        resk = [c for c in b.calls() if not b.is_cleanup(c.bb) and (c.declared_name or "") == ITER_TRAIT + "::seek" and in_cycle(b, c.bb)]
+        st = field_stores(b, "direction")
+        R.check(rule, "%s|step-before-choose" % b.path, ok and bool(resk) and bool(st), where(b),
+                "%s steps the current child before choosing, re-seeks the other children in a loop on reversal and records the new direction" % meth,
+                "step sites %d, chooser sites %d, child re-seek sites %d, direction stores %d" % (len(ss), len(cs_), len(resk), len(st)))
+
+
+# ------------------------------------------------------------------------------------------- PAIR-9 boundary expansion before range computation
+def _vec_signature(body, op):
+    """identify which file vector an operand denotes: ('field', field path, const index) for self.input_files[i],
+    ('local', name-independent local id) for a local vector"""
+    INDEXERS = {"<std::vec::Vec<T, A> as std::ops::Index<I>>::index", "<std::vec::Vec<T, A> as std::ops::IndexMut<I>>::index_mut",
+                "core::slice::index::index", "core::slice::index::index_mut", "std::array::index"}
+    sigs = set()
+    for o in origins(body, op):
+        if o.kind == "call" and o.name in INDEXERS and o.site is not None:
+            base = origins(body, o.site.args[0])
+            idx = [x.name for x in origins(body, o.site.args[1]) if x.kind == "const"]
+            for b_ in base:
+                sigs.add(("field", tuple(b_.path) if b_.path else (b_.kind, str(b_.name)), tuple(idx)))
+    if not sigs and op["k"] in ("copy", "move"):
+        for l in roots(body, op):
+            if body.local_name(l) is not None and "Vec<" in body.local_ty(l):
+                sigs.add(("local", l))
+    return sigs
+
+
+def pair9_boundary_inputs(P, R, L, rule="PAIR-9"):
+    """finalize_compaction_inputs: a set of compaction-level files is expanded by add_boundary_inputs (files of the same
+    level that continue the last user key) before a key range is computed from it — otherwise versions of one user key
+    that straddle two files are split by the compaction."""
+    fn = "compaction::manifest::CompactionManifest::finalize_compaction_inputs"
+    b = P.body(fn)
+    if b is None:
+        return R.missing_anchor(rule, fn)
+    R.analysed(b)
+    ab = normal_sites(b, "compaction::manifest::CompactionManifest::add_boundary_inputs")
+    kr = normal_sites(b, "versioning::file_metadata::FileMetadata::get_key_range_for_files")
+    R.floor(rule, "add_boundary_inputs call sites in finalize_compaction_inputs", len(ab), 3)
+    if not kr:
+        return R.check(rule, fn + "|anchors", False, where(b), "key ranges are computed from the input sets", "no get_key_range_for_files call")
+    for k in kr:
+        sk = _vec_signature(b, k.args[0])
+        doms = [a for a in ab if _vec_signature(b, a.args[1]) & sk]
+        ok = bool(sk) and bool(doms) and b.must_pass(k.bb, through_nodes=[a.bb for a in doms])
+        R.check(rule, fn + "|range-of-boundary-expanded-set", ok, k.where(),
+                "the file set whose key range is computed was expanded by add_boundary_inputs first",
+                "set %s; expansions of the same set at lines %s" % (sorted(map(str, sk)), [a.line for a in doms]))
+    # the parent-level set is expanded too, with the parent level's files
+    lv = [level_expr(b, a.args[0]) for a in ab]
+    par = [a for a in ab if any(o.kind == "binop" and o.name.startswith("Add") for x in [a.args[0]] for o in origins(b, x, transparent=__import__("rdbcheck.dataflow", fromlist=["x"]).TRANSPARENT | {
+        "<std::vec::Vec<T, A> as std::ops::Index<I>>::index", "std::array::index", "<[T; N] as std::ops::Index<I>>::index"}))]
+    R.check(rule, fn + "|both-levels-expanded", len(ab) >= 2, where(b),
+            "both the compaction level's and the parent level's input sets are boundary-expanded", "%d expansion sites" % len(ab))
+
+
+# ------------------------------------------------------------------------------------------- GRD-12 no append after a torn tail
+def grd12_reuse_only_complete_logs(P, R, L, rule="GRD-12"):
+    """A log is re-opened for appending (WAL in recover_wal_records, manifest in VersionSet::recover via
+    maybe_reuse_manifest) only on an edge that depends on the reader's consumed position versus the file length:
+    the reader stops at a torn tail, a writer would continue after it and everything appended would be unreadable."""
+    def reader_state_queries(body):
+        out = []
+        for c in body.calls():
+            if body.is_cleanup(c.bb):
+                continue
+            nm = c.name or ""
+            if nm.startswith("logs::LogReader::") and nm not in ("logs::LogReader::read_record", "logs::LogReader::new") and c.callee in P.bodies:
+                cb = P.bodies[c.callee]
+                if field_reads(cb, "current_cursor_position") or P.fn_reaches(c.callee, "logs::LogReader::len"):
+                    out.append(c)
+        return out
+
+    def guard_edges(body, queries):
+        """edges on which a bool derived from a reader-state query is true"""
+        edges = []
+        qnames = {q.name for q in queries}
+        derived = lambda os_: any(o.kind == "call" and o.name in qnames for o in os_)
+        from ..dataflow import TRANSPARENT
+        T2 = TRANSPARENT | {"std::result::Result::unwrap_or", "std::result::Result::unwrap_or_default", "std::result::Result::unwrap_or_else"}
+        for bb in range(body.n):
+            t = body.term(bb)
+            if t["k"] == "switch" and t["discr"]["k"] in ("copy", "move"):
+                if derived(origins(body, t["discr"], transparent=T2)):
+                    from ..rules import switch_target
+                    f = switch_target(t, 0)
+                    edges += [(bb, tg) for _, tg in body.edges(bb) if tg != f]
+        return edges
+
+    for fn, target_pred, what in (
+            ("db::DB::recover_wal_records", lambda c: c.name == "logs::LogWriter::new" and len(c.args) > 2 and c.args[2]["k"] == "const" and c.args[2].get("val") == "1",
+             "the WAL"),
+            ("versioning::version_set::VersionSet::recover", lambda c: c.name == "versioning::version_set::VersionSet::maybe_reuse_manifest", "the manifest")):
+        b = P.body(fn)
+        if b is None:
+            R.missing_anchor(rule, fn)
+            continue
+        R.analysed(b)
+        sites = [c for c in b.calls() if not b.is_cleanup(c.bb) and target_pred(c)]
+        if not sites:
+            R.check(rule, fn + "|anchors", False, where(b), "%s reuse site present" % what, "not found")
+            continue
+        q = reader_state_queries(b)
+        e = guard_edges(b, q)
+        for s in sites:
+            ok = bool(q) and bool(e) and b.must_pass(s.bb, through_edges=e)
+            R.check(rule, fn + "|reuse-only-when-fully-consumed", ok, s.where(),
+                    "%s is re-opened for appending only on an edge that depends on the log reader having consumed the whole file" % what,
+                    "reader-state queries %s; guard edges %d" % ([c.name.rsplit("::", 1)[1] for c in q], len(e)))
